@@ -68,6 +68,8 @@ type WireMsg struct {
 	Raw    []byte
 	Msg    gsmsg.GraphSyncMessage
 	Err    error
+	// Delivered is the step at which the last byte reached the receiver (0 = never).
+	Delivered int
 }
 
 func NewFabric(w *World) *Fabric {
@@ -377,6 +379,7 @@ type SimStream struct {
 
 	mu        sync.Mutex
 	inflight  [][]byte // nil entry = EOF marker
+	inflightW []*WireMsg
 	readable  bytes.Buffer
 	eof       bool
 	reset     bool
@@ -430,6 +433,10 @@ func (s *SimStream) deliver(outcome string) {
 	default:
 		s.inflight = s.inflight[1:]
 		s.readable.Write(chunk)
+		if len(s.inflightW) > 0 {
+			s.inflightW[0].Delivered = s.f.w.Step
+			s.inflightW = s.inflightW[1:]
+		}
 		s.f.w.Effect("deliver %s %d bytes", s.id, len(chunk))
 	}
 	s.mu.Unlock()
@@ -547,6 +554,7 @@ func (s *SimStream) accept(b []byte) {
 	wm.Msg, wm.Err = f.handler.FromNet(s.from.id, bytes.NewReader(b))
 	s.mu.Lock()
 	s.inflight = append(s.inflight, b)
+	s.inflightW = append(s.inflightW, wm)
 	s.nmsg++
 	s.mu.Unlock()
 	f.mu.Lock()
